@@ -510,7 +510,7 @@ def _(c):
     c.ensures("C04.forwarded-move-pushes-file-amount", push_exact, props=("C04",))
 
     c.ensures("C05.retraction-depth-coupling", lambda f: depth_clause(f, is_move, plm_run), props=("C05",))
-    c.ensures("Inv-preserved", lambda f: inv_all(f.self, plm_run(f)[0]), props=("C01", "C02", "C03", "C04", "C05", "C14", "C15", "C06", "C08"),
+    c.ensures("Inv-preserved", lambda f: inv_all(f.self, plm_run(f)[0]), props=("C01", "C02", "C03", "C04", "C05", "C14", "C15", "C06", "C08", "C09"),
               cases={"relative-positioning": lambda f: And(f.self.excluding, Not(f.self.position.X_AXIS.absoluteMode)),
                      "relative-extrusion": lambda f: Not(f.self.position.E_AXIS.absoluteMode)})
     c.ensures("C09.result-shape", lambda f: result_shape_ok(f.result), props=("C09",))
